@@ -60,6 +60,11 @@ func init() {
 		short: "print the names every library function declares (pins/locals.json)",
 		run:   runLocals,
 	})
+	subcommands = append(subcommands, subcommand{
+		name:  "funcs",
+		short: "print the normalised text of every unexported package-level function (pins/funcs.json)",
+		run:   runFuncs,
+	})
 }
 
 func usage() {
@@ -78,6 +83,7 @@ func main() {
 	}
 	name := os.Args[1]
 	loadPinnedLocals()
+	loadPinnedFuncs()
 	if name == "-h" || name == "-help" || name == "--help" || name == "help" {
 		usage()
 		return
